@@ -1,5 +1,6 @@
 import Driver.Client
 import LettreVerif.Model.Transports
+import LettreVerif.Spec.EnvelopeJson
 namespace LV.Driver.C18
 open LV LV.Transports LV.Driver LV.Driver.ClientOp
 
@@ -26,6 +27,7 @@ def transportsOp : List String → String
           if ofHex eml != some msg then some "eml-file-is-not-the-octets"
           else if rd != "read-equal" then some "file-read-back-differs"
           else if names != "id-names-files" then some "returned-id-does-not-name-the-files"
+          else if (ofHex json).bind EnvelopeJson.readEnvelope != some env then some "json-envelope-does-not-read-back-equal"
           else if ofHex json != some (envelopeJson env) then some s!"MISMATCH json model={toHexField (envelopeJson env)}"
           else none
         | _ => some "file-bad-report"
